@@ -89,7 +89,7 @@ pub fn c14_c15_pool(m: &mut Mon, ctx: &StepCtx, stats: &mut Stats, out: &mut Vec
         let recipient = ctx.tx.and_then(|t| t.msg.get("claim_rewards").and_then(|b| b.get("recipient")).and_then(|r| r.as_str()).map(|s| s.to_string())).unwrap_or_else(|| signer.clone());
         if ctx.committed() {
             stats.check("c14_claim_committed");
-            if paid.len() != 1 || paid[0] != (recipient.clone(), n) || n == 0 {
+            if paid.is_empty() || paid.iter().any(|x| x.0 != recipient) || paid_sum != n || n == 0 {
                 viol(out, "C14", "claim_pays_exactly_whole_units", ctx.idx, "reward.ClaimRewards:payout", format!("{} had {} claimable, recipient {}; transfers: {:?}", signer, n, recipient, paid));
             }
             m.claimed += paid_sum;
